@@ -881,6 +881,9 @@ theorem indexRecordBody_vis : VSpec ws0 (indexRecordBody r n) n := by
 omit hr hn in
 theorem sameFileDefset_silent : Silent sameFileDefset := by unfold sameFileDefset; silent
 
+omit hr hn in
+theorem defDefset_silent : Silent defDefset := by unfold defDefset sameFileDefset; silent
+
 theorem indexClass_vis : VSpec ws0 (indexClass r n) n := by
   intro c f hc
   have h := At.start hc
@@ -1033,7 +1036,7 @@ theorem indexDef_vis : VSpec ws0 (indexDef r n) n := by
       subst hcc; subst hx
       exact hjp none n (by intro _ _ hh; cases hh) (by intro _ _ hh; cases hh) h0
   unfold indexDef
-  refine PC.silent_bind sameFileDefset_silent h ?_
+  refine PC.silent_bind defDefset_silent h ?_
   intro dsid c0 h0
   cases dsid with
   | none =>
